@@ -24,6 +24,8 @@ const (
 	evExecA  = 'A'
 	evExecB  = 'B'
 	evExecH  = 'H' // execute a finisher directly on the base handle
+	evExecHA = 'x' // execute a finisher directly on the handle made from fork A (FinA == fHandle, after exec A)
+	evExecHB = 'y' // the same for fork B
 )
 
 type event struct {
@@ -77,6 +79,10 @@ func (e event) String() string {
 		return "exec A"
 	case evExecB:
 		return "exec B"
+	case evExecHA:
+		return "exec handle of A: " + finishers[e.Fin].Label
+	case evExecHB:
+		return "exec handle of B: " + finishers[e.Fin].Label
 	}
 	return "exec H: " + finishers[e.Fin].Label
 }
@@ -134,6 +140,17 @@ func fromJSON(j HistoryJSON) (*hist, error) {
 			hs.Events = append(hs.Events, event{Kind: evExecA})
 		case e == "exec B":
 			hs.Events = append(hs.Events, event{Kind: evExecB})
+		case strings.HasPrefix(e, "exec handle of A: "), strings.HasPrefix(e, "exec handle of B: "):
+			k := byte(evExecHA)
+			pre := "exec handle of A: "
+			if strings.HasPrefix(e, "exec handle of B: ") {
+				k, pre = evExecHB, "exec handle of B: "
+			}
+			f, ok := finByLabel[strings.TrimPrefix(e, pre)]
+			if !ok {
+				return nil, fmt.Errorf("unknown finisher in %q", e)
+			}
+			hs.Events = append(hs.Events, event{Kind: k, Fin: f})
 		case strings.HasPrefix(e, "exec H: "):
 			f, ok := finByLabel[strings.TrimPrefix(e, "exec H: ")]
 			if !ok {
@@ -174,6 +191,10 @@ func (hs *hist) String() string {
 			fmt.Fprintf(&sb, "  b.%s\n", finishers[hs.FinB].Label)
 		case evExecH:
 			fmt.Fprintf(&sb, "  H.%s\n", finishers[e.Fin].Label)
+		case evExecHA:
+			fmt.Fprintf(&sb, "  a.%s   (a is a handle now)\n", finishers[e.Fin].Label)
+		case evExecHB:
+			fmt.Fprintf(&sb, "  b.%s   (b is a handle now)\n", finishers[e.Fin].Label)
 		}
 	}
 	if hs.Dense {
@@ -731,6 +752,20 @@ func (w *worker) run(hs *hist, fresh bool, trace io.Writer) (fail *failure) {
 				}
 			}
 			if f := compare("chain derived from a shared handle differs from its isolated replay", "fork "+fk.name+" executed", s, oc.result()); f != nil {
+				return f
+			}
+		case evExecHA, evExecHB:
+			fk := fa
+			if e.Kind == evExecHB {
+				fk = fb
+			}
+			if fk.status != 3 {
+				return &failure{Kind: "harness: bad schedule", Step: i, What: "exec on a fork that is not a handle"}
+			}
+			s := spec{Real: hs.Real, Base: hs.Base, Maker: hs.Maker, Fork: fk.ops, ForkHandle: true, Fin: e.Fin}
+			oc.begin()
+			finishers[e.Fin].Run(fk.db, hasModel(hs.Base, fk.ops), oc.observe)
+			if f := compare("reusable handle changed", "handle made from fork "+fk.name+" executed", s, oc.result()); f != nil {
 				return f
 			}
 		case evExecH:
